@@ -638,6 +638,33 @@ example :
         (decode ⟨#[17, 3, 0, 13, 6, 0, 0, 1, 97], #[]⟩) 0 2 1024) 3 0 with | .error .fuel => true | _ => false) = true := by
   decide
 
+/-! ### `Err.fuel` is not only an artefact: real divergence
+
+`{:main (+ "a" :main)}` on "b": RULE_CHOICE reaches its last alternative by `goto tail` after `up1`, so the recursion guard never
+trips; the REAL peg.c loops forever on it (`janet -e '(peg/match (quote {:main (+ "a" :main)}) "b")'` does not return; PEG
+semantics gives the left-recursive-in-tail-position grammar no meaning either).  In the model the run answers `Err.fuel` at EVERY
+fuel - so the hypothesis `≠ Err.fuel` of the fuel-monotonicity theorems cannot be dropped, and it is exactly "the C returns". -/
+def divE : Env := { text := [98], args := [], hasBackref := false }
+def divFetch : Nat → Option (Instr Nat)
+  | 0 => some (.choice [1, 0])
+  | 1 => some (.literal [97])
+  | _ => none
+def divS : St := initSt divE 1024
+
+theorem div_step (f : Nat) : Op.run divE divFetch (f + 2) 0 divS 0 = Op.run divE divFetch (f + 1) 0 divS 0 := by
+  conv => lhs; rw [Op.run]
+  simp only [divFetch, Op.step]
+  have hd : down1 divS = .ok { divS with depth := 1023 } := rfl
+  have hl : Op.run divE divFetch (f + 1) 1 { divS with depth := 1023 } 0 = .ok (none, { divS with depth := 1023 }) := rfl
+  simp only [List.isEmpty_cons, Bool.false_eq_true, if_false, hd, bind, Except.bind, Op.choiceLoop, hl]
+  rfl
+
+theorem tail_choice_diverges : ∀ f, Op.run divE divFetch f 0 divS 0 = .error .fuel
+  | 0 => rfl
+  | 1 => rfl
+  | f + 2 => by rw [div_step]; exact tail_choice_diverges (f + 1)
+
+
 /-- non-vacuity for the denotational side: same program, fuel 2 answers `Err.fuel`, fuel 3 a match ending at 1 - so the first
     premise of `op_eq_den_any_fuel` is met at f = 3 -/
 def denFuelTag (r : DRes) : Nat :=
